@@ -8,6 +8,10 @@
 pub mod common;
 
 #[cfg(kani)]
+mod st;
+#[cfg(kani)]
 mod c16;
 #[cfg(kani)]
 mod c17;
+#[cfg(kani)]
+mod c18;
